@@ -50,9 +50,11 @@ _COMMON = {
     "multi_edge_path": "a valid returned route with >= 2 edges",
     "unreachable_none": "None returned for an unreachable target",
     "history_depth_2": "a query was executed in a state left behind by a different query",
-    "state_space_closed": "per-graph BFS reached a fixpoint (no new state at depth 2)",
 }
 _COMMON["long_route"] = "a route of 4, 32 and 1199 hops along a corridor was returned and compared vertex by vertex"
+_COMMON["path_with_cut_off"] = "shortest_path(s, t, cut) with the target within the cut-off"
+_COMMON["cut_off_equal_to_the_distance"] = "... with the cut-off exactly equal to the shortest distance"
+_COMMON["sub_network_extracted"] = "sub_network() was called on the network between queries"
 OBLIGATIONS = {"all": dict(_COMMON, pq_priority_decreased=pqueue.OBLIGATIONS["pq_priority_decreased"],
                           pq_tie_at_minimum=pqueue.OBLIGATIONS["pq_tie_at_minimum"]), "quick": {},
                "thorough": {"three_edge_path": "a valid returned route with 3 edges (4-node graphs)"}}
@@ -118,6 +120,7 @@ def events_for(nn, W):
     ev = [("sp", s, t) for s in range(nn) for t in range(nn) if s != t]
     ev += [("sp", s, s) for s in range(nn)]
     ev.append(("asd", W[1]))
+    ev += [("sub", s, W[-1]) for s in (0,)]      # a sub-network extracted between two path queries
     return ev
 
 
@@ -141,6 +144,14 @@ def fire(g, ev):
         if st != "ok":
             return (st, val)
         return ("ok", observe(val))
+    if ev[0] == "spc":              # the same query with the optional cut-off (a maximal distance for the search)
+        st, val = guard(g.net.shortest_path, g.args[ev[1]], g.args[ev[2]], ev[3])
+        if st != "ok":
+            return (st, val)
+        return ("ok", observe(val))
+    if ev[0] == "sub":
+        st, val = guard(g.net.sub_network, g.args[ev[1]], ev[2], "TOPOLOGIC", False)
+        return (st, None if st == "ok" else val)
     if ev[0] == "asd":
         st, val = guard(g.net.all_shortest_distances, ev[1])
         return (st, None if st == "ok" else val)
@@ -236,8 +247,8 @@ def verdict(g, O, ev, res):
                   "parallel_diff": any(len({w for _, w, _ in L}) > 1 for L in cands)}
 
 
-def key_of(cls, why, after_history_only):
-    k = "shortest_path/%s/%s" % (cls, why)
+def key_of(cls, why, after_history_only, with_cut=False):
+    k = "shortest_path/%s%s/%s" % ("with-cut-off/" if with_cut else "", cls, why)
     if after_history_only:
         k += "/only-after-history"
     return k
@@ -254,6 +265,14 @@ def make_judge(ctx, variant, nn, edges, O, root):
     def judge(hist, ev, res, g):
         if hist and hist[-1] != ev:
             ctx.oblige("history_depth_2")
+        if not g.is_clean():
+            ctx.violation("network/node-positions-or-edge-tables-changed-by-a-query",
+                          _case(variant, nn, edges, hist, ev), {"before": repr(g.qt0)[:300], "after": repr(g.quick_topology())[:300]})
+            return False
+        if ev[0] == "sub":
+            ctx.oblige("sub_network_extracted")
+        elif any(h[0] == "sub" for h in hist):
+            ctx.count("queries_after_a_sub_network_extraction")   # informative: the state a sub_network() call leaves is often one a plain query leaves too, and is then not expanded again
         if ev[0] != "sp" or ev[1] == ev[2]:
             ctx.case(False)
             ctx.undef()
@@ -302,11 +321,38 @@ def explore_graph(variant, nn, edges, W, depth, ctx):
     n_states, closed = graphs.history_bfs(ctx, (nn, edges), mk, events_for(nn, W), fire,
                                           make_judge(ctx, variant, nn, edges, O, root), depth)
     if closed == 2:
-        ctx.oblige("state_space_closed")
+        ctx.count("graphs_closed_at_depth_2")       # informative: says something about the implementation, not the input
     elif depth >= 2:
         ctx.count("graphs_not_closed_at_depth_2")
+    _cut_queries(variant, nn, edges, W, O, mk, ctx)
     ctx.count("graphs")
     return O, n_states
+
+
+def _cut_queries(variant, nn, edges, W, O, mk, ctx):
+    """shortest_path(s, t, cut) for every reachable ordered pair, with a cut-off equal to the true distance and one a little
+    above it: the target lies within the cut-off, so everything the statement says about the returned route applies.  Asked of
+    a fresh network and of one that has just answered the reverse query."""
+    for s in range(nn):
+        for t in range(nn):
+            D = O.D[s][t]
+            if s == t or D == INF:
+                continue
+            for cut in (D, D + W[1]):
+                for hist in ((), (("sp", t, s),)):
+                    ev = ("spc", s, t, cut)
+                    g, _ = graphs.run_history(mk, fire, hist)
+                    res = fire(g, ev)
+                    ctx.transition(1 + len(hist))
+                    ctx.case(O.multi[(s, t)])
+                    ctx.oblige("path_with_cut_off")
+                    if cut == D:
+                        ctx.oblige("cut_off_equal_to_the_distance")
+                    why, facts = verdict(g, O, ev, res)
+                    if why is not None:
+                        ctx.violation(key_of(input_class(O, s, t), why, False, True), _case(variant, nn, edges, hist, ev), facts)
+                    elif "none" not in facts:
+                        ctx.outcome(("spc", facts["edges"], cut == D))
 
 
 def run_shard(shard, ctx):
@@ -431,10 +477,16 @@ def replay(case, ctx):
         root_ok = verdict(g0, O, ev, fire(g0, ev))[0] is None
     g, _ = graphs.run_history(mk, fire, hist)
     res = fire(g, ev)
-    why, facts = verdict(g, O, ev, res)
     ctx.case(True)
+    if not g.is_clean():
+        ctx.violation("network/node-positions-or-edge-tables-changed-by-a-query",
+                      _case(variant, nn, edges, hist, ev), {"before": repr(g.qt0)[:300], "after": repr(g.quick_topology())[:300]})
+        return
+    if ev[0] not in ("sp", "spc") or ev[1] == ev[2]:
+        return
+    why, facts = verdict(g, O, ev, res)
     if why is not None:
-        ctx.violation(key_of(input_class(O, ev[1], ev[2]), why, bool(hist) and root_ok),
+        ctx.violation(key_of(input_class(O, ev[1], ev[2]), why, bool(hist) and root_ok, ev[0] == "spc"),
                       _case(variant, nn, edges, hist, ev), facts)
 
 
